@@ -96,18 +96,19 @@ type sched struct {
 	Isss       []string          `json:"isss"`
 	Random     int               `json:"random"` // random token/header mixes per configuration (C09)
 	C10        bool              `json:"c10"`
+	Deep       bool              `json:"deep"` // C10: every key family, more claim sets and names
 	Behaviours [][][]interface{} `json:"behaviours"`
 }
 
 // ---- keys ------------------------------------------------------------------
 
 var (
-	hmacConf  = []byte("the-configured-hmac-secret")
-	hmacOther = []byte("some-other-secret")
-	rsaConf, rsaOther *rsa.PrivateKey
-	ecConf, ecOther   *ecdsa.PrivateKey
+	hmacConf            = []byte("the-configured-hmac-secret")
+	hmacOther           = []byte("some-other-secret")
+	rsaConf, rsaOther   *rsa.PrivateKey
+	ecConf, ecOther     *ecdsa.PrivateKey
 	rsaPubPEM, ecPubPEM string
-	jwksPath  string
+	jwksPath            string
 )
 
 func pemOf(pub interface{}) string {
@@ -721,39 +722,49 @@ func main() {
 			}
 		}
 	} else {
-		c := Conf{Keys: []string{"HS"}}
-		w, err := newWorld(c, nil, []string{"e", "e1"})
-		if err != nil {
-			fmt.Fprintln(os.Stderr, "aeng: start:", err)
-			os.Exit(2)
-		}
-		reset()
+		confs := [][]string{{"HS"}}
 		claimSets := [][]string{nil, {"e"}, {"e1"}, {"e", "e1"}, {"other"}, {"E"}, {"e "}, {""}}
 		hosts := []string{"", "e", "e1", "other"}
-		for _, eps := range claimSets {
-			t := goodTok(c)
-			t.Eps = eps
-			for _, host := range hosts {
-				for _, hd := range hosts {
-					for _, route := range []string{"GET /", "GET /some/path?q=1", "POST /"} {
-						endpointCase(w, route, t, Tgt{Host: host, Header: hd}, emit)
-					}
-				}
+		if sf.Deep {
+			confs = [][]string{{"HS"}, {"RS"}, {"ES"}, {"JWKS"}, {"HS", "RS", "ES"}}
+			claimSets = append(claimSets, []string{"e", "other"}, []string{"e1", "E"}, []string{"e.x"}, []string{"e", "e", "e1"}, []string{"ee"}, []string{"e1e"})
+			hosts = append(hosts, "E", "ee")
+		}
+		var c Conf
+		for _, keys := range confs {
+			c = Conf{Keys: keys}
+			w, err := newWorld(c, nil, []string{"e", "e1"})
+			if err != nil {
+				fmt.Fprintln(os.Stderr, "aeng: start:", err)
+				os.Exit(2)
 			}
-			for _, ep := range []string{"e", "e1", "other"} {
-				endpointCase(w, "GET /_piko/v1/tcp/"+ep, t, Tgt{Path: ep}, emit)
-				// the path names the endpoint that is routed to, whatever Host and header say
+			reset()
+			for _, eps := range claimSets {
+				t := goodTok(c)
+				t.Eps = eps
 				for _, host := range hosts {
 					for _, hd := range hosts {
-						if host != "" || hd != "" {
-							endpointCase(w, "GET /_piko/v1/tcp/"+ep, t, Tgt{Host: host, Header: hd, Path: ep}, emit)
+						for _, route := range []string{"GET /", "GET /some/path?q=1", "POST /"} {
+							endpointCase(w, route, t, Tgt{Host: host, Header: hd}, emit)
 						}
 					}
 				}
-				listenCase(w, ep, t, emit)
+				for _, ep := range []string{"e", "e1", "other"} {
+					endpointCase(w, "GET /_piko/v1/tcp/"+ep, t, Tgt{Path: ep}, emit)
+					// the path names the endpoint that is routed to, whatever Host and header say
+					for _, host := range hosts {
+						for _, hd := range hosts {
+							if host != "" || hd != "" {
+								endpointCase(w, "GET /_piko/v1/tcp/"+ep, t, Tgt{Host: host, Header: hd, Path: ep}, emit)
+							}
+						}
+					}
+					listenCase(w, ep, t, emit)
+				}
 			}
+			w.close()
 		}
-		w.close()
+		c = Conf{Keys: []string{"HS"}}
 		var tens []Ten
 		for _, table := range [][]string{nil, {"t1"}, {"t1", "t2"}} {
 			for _, h := range []string{"", "t1", "t2", "tx"} {
